@@ -14,7 +14,7 @@ from fsic.exceptions import DimensionError, DuplicateNameError
 from pyvc import values as V
 from pyvc.contracts import Call, FunctionContract
 from pyvc.interp import exc_class
-from pyvc.libspec import ARROBJ, ND_DTYPE, ND_LEN0, ND_NDIM, ND_SIZE, NDStore, SDType, SeqVal, SND, fresh_nd
+from pyvc.libspec import ARROBJ, ND_DTYPE, ND_LEN0, ND_NDIM, ND_OWNED, ND_SIZE, NDStore, SDType, SeqVal, SND, fresh_nd
 from pyvc.values import BOOL, F64, INT, STR, SBool, SFloat, SInt, SObj, SSeq, SStr, forall_range
 
 NDMAP = z3.ArraySort(STR, ARROBJ)
@@ -36,7 +36,8 @@ def make(interp, e, *, strict_symbolic=False):
     # wf(self)
     i = z3.Int('i!wf')
     ctx.assume(z3.ForAll([i], z3.Implies(z3.And(0 <= i, i < m), z3.And(ND_NDIM(z3.Select(data0, z3.Select(idx_arr, i))) == 1,
-                                                                         ND_LEN0(z3.Select(data0, z3.Select(idx_arr, i))) == n))))
+                                                                         ND_LEN0(z3.Select(data0, z3.Select(idx_arr, i))) == n,
+                                                                         ND_OWNED(z3.Select(data0, z3.Select(idx_arr, i)))))))
     attrs = SSeq('list', ctx.fresh('na', INT), ctx.fresh('attributes', z3.ArraySort(INT, STR)), 'str')
     ctx.assume(attrs.length >= 0)
     strict = SBool(ctx.fresh('strict', BOOL)) if strict_symbolic else False
@@ -56,13 +57,14 @@ def value_of_shape(interp, shape):
         ln = ctx.fresh('len(value)', INT)
         ctx.assume(ln >= 0)
         return SeqVal(ln)
-    return fresh_nd(interp, 'value')
+    return fresh_nd(interp, 'value', owned=False)      # the caller's array: nothing is known about who else holds it
 
 
 def wf_after(e, data, index_arr, m):
     i = z3.Int('i!wf2')
     return z3.ForAll([i], z3.Implies(z3.And(0 <= i, i < m), z3.And(ND_NDIM(z3.Select(data, z3.Select(index_arr, i))) == 1,
-                                                                   ND_LEN0(z3.Select(data, z3.Select(index_arr, i))) == e['n'])))
+                                                                   ND_LEN0(z3.Select(data, z3.Select(index_arr, i))) == e['n'],
+                                                                   ND_OWNED(z3.Select(data, z3.Select(index_arr, i))))))
 
 
 def in_index(e, name):
@@ -116,6 +118,7 @@ class AddVariable(FunctionContract):
         ctx.prove(z3.And(ND_NDIM(new) == 1, ND_LEN0(new) == e['n']), 'new_variable_is_one_dimensional_with_one_element_per_period', 'ensures')
         if 'dtype' in e:
             ctx.prove(ND_DTYPE(new) == e['dtype'], 'new_variable_has_the_requested_dtype', 'ensures')
+        ctx.prove(ND_OWNED(new), 'new_series_owns_its_memory_(shares_none_with_the_value_passed_in_or_with_another_series)', 'own', props=('C09', 'C04', 'C11'))
         nm = z3.String('nm!av')
         ctx.prove(z3.ForAll([nm], z3.Implies(nm != name, z3.Select(data1, nm) == z3.Select(e['data0'], nm))), 'every_other_series_is_untouched', 'frame')
         ctx.prove(z3.And(index1.length == e['m'] + 1, z3.Select(index1.arr, e['m']) == name,
@@ -171,6 +174,7 @@ class SetAttrVariable(FunctionContract):
         new = z3.Select(data1, name)
         ctx.prove(z3.And(ND_NDIM(new) == 1, ND_LEN0(new) == e['n']), 'series_stays_one_dimensional_with_one_element_per_period', 'ensures')
         ctx.prove(ND_DTYPE(new) == ND_DTYPE(old), 'series_keeps_the_dtype_it_was_created_with', 'ensures')
+        ctx.prove(ND_OWNED(new), 'series_owns_its_memory_after_the_assignment', 'own', props=('C09', 'C04', 'C11'))
         nm = z3.String('nm!sa')
         ctx.prove(z3.ForAll([nm], z3.Implies(nm != name, z3.Select(data1, nm) == z3.Select(e['data0'], nm))), 'every_other_series_is_untouched', 'frame')
         ctx.prove(z3.And(obj.fields['index'].length == e['m'], obj.fields['index'].arr == e['idx_arr']), 'declaration_order_unchanged', 'frame')
